@@ -38,6 +38,7 @@ BUDGET_S = {'quick': 240, 'thorough': 900}
 
 def bounds(tier):
     return {'z3_goals': 'all templates (see goal_family) ' + ('' if tier == 'thorough' else '; depth-2 propositional combinations sampled 1500'),
+            'z3_goal_sequences': 'every family goal that prints alike at int / real and at nat, decided in that order in one process (verdicts must not carry over between goals)',
             'z3_undecided_goals': '%d goals with a quantified premise over an uninterpreted f (6 premises x 7 conclusions x nat/int%s); invalid ones refuted by instantiating f with one of 8 concrete functions' % (
                 (168, ', as implication and as sequent') if tier == 'thorough' else (42, ', every second one')),
             'sympy_goals': '%d seeded + fixed list + systematic interval end-point family (3 intervals x closed/open x 5 relations x 21 polynomials) + ground nat/int subtraction goals' % (600 if tier == 'quick' else 6000)}
@@ -201,6 +202,34 @@ def z3u_goals(tier='quick'):
         out = out[::2]
     _G[key] = out
     return out
+
+
+def z3_order_groups():
+    """Goals of the family that print alike at different numeric types, grouped: [(label, [(type name, hyps, goal), ...])] with the
+    integer / real version (often valid) before the natural-number one -- a bridge that remembers verdicts by the printed goal
+    would carry the first verdict over."""
+    if 'z3o' in _G:
+        return _G['z3o']
+    groups = {}
+    for lab, hyps, goal in z3_goals():
+        if ':' in lab and lab.split(':', 1)[0] in ('nat', 'int', 'real') and not hyps:
+            tn, rest = lab.split(':', 1)
+            groups.setdefault(rest, {})[tn] = (hyps, goal)
+    out = []
+    for rest in sorted(groups):
+        g = groups[rest]
+        if 'nat' in g and ('int' in g or 'real' in g):
+            seq = [(tn, g[tn][0], g[tn][1]) for tn in ('int', 'real', 'nat') if tn in g]
+            if len({str(x[2]) for x in seq}) < len(seq):        # at least two of them print identically
+                out.append((rest, seq))
+    _G['z3o'] = out
+    return out
+
+
+def run_order_group(i, out):
+    rest, seq = z3_order_groups()[i]
+    for k, (tn, hyps, goal) in enumerate(seq):
+        check_z3_goal('%s:%s (after %s)' % (tn, rest, [x[0] for x in seq[:k]]), hyps, goal, out, {'part': 'z3o', 'index': i, 'k': k})
 
 
 def prop_combos(rnd, n):
@@ -397,6 +426,9 @@ def units(tier, seed):
         us.append(('z3c', seed, lo, 100))
     for lo in range(0, len(z3u_goals(tier)), 3):
         us.append(('z3u', tier, lo, lo + 3))
+    ng = len(z3_order_groups())
+    for lo in range(0, ng, 25):
+        us.append(('z3o', lo, min(ng, lo + 25)))
     k = 600 if tier == 'quick' else 6000
     for lo in range(0, k, 50):
         us.append(('sympy', seed, lo, 50))
@@ -422,6 +454,10 @@ def run_unit(u):
             lab, hyps, goal = gs[i]
             check_z3_goal(lab, hyps, goal, out, {'part': 'z3u', 'tier': u[1], 'index': i})
         out['samples'].append({'z3_goal': str(gs[u[2]][2]), 'label': gs[u[2]][0]})
+    elif u[0] == 'z3o':
+        for i in range(u[1], u[2]):
+            run_order_group(i, out)
+        out['samples'].append({'z3_goal_sequence': [str(x[2]) for x in z3_order_groups()[u[1]][1]], 'types': [x[0] for x in z3_order_groups()[u[1]][1]]})
     elif u[0] == 'z3c':
         _, seed, lo, n = u
         rnd = random.Random('c06c-%s-%s' % (seed, lo))
@@ -480,6 +516,11 @@ def replay(c):
         return not (z3wrapper.check_z3 is True and z3wrapper.z3_loaded), c['detail']
     if part == 'z3':
         lab, hyps, goal = z3_goals()[c['index']]
+    elif part == 'z3o':
+        rest, seq = z3_order_groups()[c['index']]
+        for tn0, h0, g0 in seq[:c['k']]:
+            bridge_z3(h0, g0)           # the earlier goals of the sequence, in order
+        lab, hyps, goal = rest, seq[c['k']][1], seq[c['k']][2]
     elif part == 'z3u':
         lab, hyps, goal = z3u_goals(c['tier'])[c['index']]
     elif part == 'z3c':
